@@ -265,11 +265,20 @@ def isI64 : Fun.Ty → Bool
 def mainSigOk (d : Fun.Def) : Bool :=
   decide (d.ctx.length ≤ 5) && d.ctx.all (fun b => b.chi == .prd && isI64 b.ty) && isI64 d.retTy
 
-/-- there is a definition called `main`, and every definition of that name has a valid signature
-    (a checked program has exactly one; stated this way no uniqueness argument is needed) -/
+/-- the definitions called `main` -/
+def mainDefs (p' : Fun.CheckedProgram) : List Fun.Def := p'.defs.filter (fun d => d.name == "main")
+
+/-- there is exactly one definition called `main`, and its signature is valid -/
 def validMain (p' : Fun.CheckedProgram) : Bool :=
-  p'.defs.any (fun d => d.name == "main") &&
-  p'.defs.all (fun d => !(d.name == "main") || mainSigOk d)
+  match mainDefs p' with
+  | [d] => mainSigOk d
+  | _ => false
+
+/-- number of parameters of `main` -/
+def mainArity (p' : Fun.CheckedProgram) : Nat :=
+  match mainDefs p' with
+  | d :: _ => d.ctx.length
+  | [] => 0
 
 /-! ## native execution: C driver + io.c around the routine (runtime model of C20) -/
 
